@@ -61,6 +61,8 @@ Acts(s) ==
            Xfer("bob", "iB1", "ethereum", 1, "none", 1)})
     \cup {Xfer(c, id, "ethereum", x, "none", 1) : c \in Callers, id \in {"iA1", "cS"}, x \in Amts}
     \cup {Xfer(c, id, "ethereum", 1, "d1", 1) : c \in Callers, id \in {"iA1", "cS"}}
+    \* data of exactly one byte and of exactly one word: announced as given
+    \cup {Xfer("alice", id, "ethereum", 1, d, 1) : id \in {"iA1", "cS"}, d \in {"b1", "b32"}}
     \cup {Xfer("alice", id, "avalanche", 1, "none", 1) : id \in {"iA1", "cS"}}
     \cup {Xfer("alice", "r9", "ethereum", 1, "none", 1)}
     \cup {Xfer("alice", id, "ethereum", 1, "none", g) : id \in {"iA1", "cS"}, g \in {-1, 0, 9}}
